@@ -18,7 +18,7 @@ Lemma ids_exact_on_incl (P Q : Desc -> Prop) : (forall d, P d -> Q d) -> ids_exa
 Proof. intros H HQ d1 d2 H1 H2. apply HQ; auto. Qed.
 Lemma dims_exact_on_incl (P Q : Desc -> Prop) : (forall d, P d -> Q d) -> dims_exact_on Q -> dims_exact_on P.
 Proof. intros H HQ d1 d2 H1 H2. apply HQ; auto. Qed.
-Lemma sums_exact_on_incl (P Q : list Desc -> Prop) : (forall d, P d -> Q d) -> sums_exact_on Q -> sums_exact_on P.
+Lemma cids_exact_on_incl (P Q : list Desc -> Prop) : (forall d, P d -> Q d) -> cids_exact_on Q -> cids_exact_on P.
 Proof. intros H HQ d1 d2 H1 H2. apply HQ; auto. Qed.
 
 Definition ids_exact_list_b (l : list Desc) : bool :=
@@ -28,7 +28,7 @@ Definition dims_exact_list_b (l : list Desc) : bool :=
                                       || Bool.eqb (d_dim a =? d_dim b) (same_dimb a b)) l) l.
 Definition same_id_set_b (a b : list Desc) : bool :=
   forallb (fun i => memN i (map d_id b)) (map d_id a) && forallb (fun i => memN i (map d_id a)) (map d_id b).
-Definition sums_exact_list_b (cl : list (list Desc)) : bool :=
+Definition cids_exact_list_b (cl : list (list Desc)) : bool :=
   forallb (fun a => forallb (fun b => negb (collector_id a =? collector_id b) || same_id_set_b a b) cl) cl.
 
 Lemma ids_exact_on_list l : ids_exact_list_b l = true -> ids_exact_on (fun d => In d l).
@@ -43,9 +43,9 @@ Proof.
   rewrite forallb_forall in H. specialize (H d2 H2). rewrite En, str_eqb_refl in H. cbn [negb orb] in H.
   apply Bool.eqb_prop in H. rewrite <- same_dimb_spec, <- H, N.eqb_eq. tauto.
 Qed.
-Lemma sums_exact_on_list cl : sums_exact_list_b cl = true -> sums_exact_on (fun ds => In ds cl).
+Lemma cids_exact_on_list cl : cids_exact_list_b cl = true -> cids_exact_on (fun ds => In ds cl).
 Proof.
-  unfold sums_exact_list_b, sums_exact_on. intros H ds1 ds2 H1 H2 E i. rewrite forallb_forall in H. specialize (H ds1 H1).
+  unfold cids_exact_list_b, cids_exact_on. intros H ds1 ds2 H1 H2 E i. rewrite forallb_forall in H. specialize (H ds1 H1).
   rewrite forallb_forall in H. specialize (H ds2 H2). rewrite E, N.eqb_refl in H. cbn [negb orb] in H.
   unfold same_id_set_b in H. apply andb_true_iff in H as [Ha Hb]. rewrite forallb_forall in Ha, Hb.
   split; intros Hi; [apply memN_In, Ha|apply memN_In, Hb]; exact Hi.
@@ -62,15 +62,15 @@ Qed.
 
 (* the three hypotheses of history_refines_fresh, decided by computation for a concrete history *)
 Definition history_collision_free_b {C} (ops : list (regop C)) : bool :=
-  ids_exact_list_b (flat_map op_ds ops) && dims_exact_list_b (flat_map op_ds ops) && sums_exact_list_b (map op_ds ops).
+  ids_exact_list_b (flat_map op_ds ops) && dims_exact_list_b (flat_map op_ds ops) && cids_exact_list_b (map op_ds ops).
 Theorem history_collision_free {C} (ops : list (regop C)) :
   history_collision_free_b ops = true ->
-  ids_exact_on (hist_P ops) /\ dims_exact_on (hist_P ops) /\ sums_exact_on (hist_CP ops).
+  ids_exact_on (hist_P ops) /\ dims_exact_on (hist_P ops) /\ cids_exact_on (hist_CP ops).
 Proof.
   unfold history_collision_free_b. rewrite !andb_true_iff. intros [[H1 H2] H3]. split; [|split].
   - eapply ids_exact_on_incl; [|apply ids_exact_on_list; exact H1]. intros d. apply hist_P_flat.
   - eapply dims_exact_on_incl; [|apply dims_exact_on_list; exact H2]. intros d. apply hist_P_flat.
-  - eapply sums_exact_on_incl; [|apply sums_exact_on_list; exact H3]. intros d. apply hist_CP_map.
+  - eapply cids_exact_on_incl; [|apply cids_exact_on_list; exact H3]. intros d. apply hist_CP_map.
 Qed.
 
 (* ====================================================================================== *)
@@ -172,3 +172,34 @@ Lemma ex_history_trace :
   reg_trace reg_empty ex_history =
   [Ok tt; Err EAlreadyReg; Err EMsg; Err EAlreadyReg; Ok tt; Ok tt; Err EMsg; Ok tt].
 Proof. vm_compute. reflexivity. Qed.
+
+(* ====================================================================================== *)
+(* 4. the defect repaired by edcf206: collectors were filed under the wrapping SUM of ids   *)
+(* ====================================================================================== *)
+(* the pre-repair combiner *)
+Definition collector_id_sum (ds : list Desc) : N := fold_left (fun a i => wrap64 (a + i)) (distinct_ids ds []) 0.
+Definition s_x : str := [120].  Definition s_y : str := [121].  Definition s_g : str := [103].  Definition s_k : str := [107].
+Definition mk_dv (fq help : str) (consts : list (str * str)) : Desc := mk_d fq help consts.
+(* C1 = [g{k="1"}; y], C2 = [g{k="2"}; x]: four different descriptors, the same sum of ids *)
+Definition ex_C1 : list Desc := [mk_d s_g s_h [(s_k, [49])]; mk_d s_y s_h []].
+Definition ex_C2 : list Desc := [mk_d s_g s_h [(s_k, [50])]; mk_d s_x s_h []].
+(* A = [x{k="3"} help B; y], B = [x{k="2"} help B; x]: B disagrees with itself (x with and without k) *)
+Definition ex_A : list Desc := [mk_d s_x s_helpB [(s_k, [51])]; mk_d s_y s_h []].
+Definition ex_B : list Desc := [mk_d s_x s_helpB [(s_k, [50])]; mk_d s_x s_h []].
+Lemma sum_ids_collided :
+  collector_id_sum ex_C1 = collector_id_sum ex_C2 /\ collector_id ex_C1 <> collector_id ex_C2
+  /\ collector_id_sum ex_A = collector_id_sum ex_B /\ collector_id ex_A <> collector_id ex_B.
+Proof. vm_compute. repeat split; discriminate. Qed.
+(* with the repaired collector id the histories run as the text demands: both C1 and C2 are
+   accepted and can be unregistered; B is refused (Msg: it disagrees with itself) and
+   unregistering it - it is not registered - fails and leaves A in place *)
+Definition ex_history2 : list (regop unit) :=
+  [ RRegister ex_C1 tt; RRegister ex_C2 tt; RUnregister ex_C1; RUnregister ex_C2; RRegister ex_C2 tt ].
+Definition ex_history3 : list (regop unit) :=
+  [ RRegister ex_A tt; RRegister ex_B tt; RUnregister ex_B; RUnregister ex_A ].
+Lemma ex_history23_collision_free : history_collision_free_b ex_history2 && history_collision_free_b ex_history3 = true.
+Proof. vm_compute. reflexivity. Qed.
+Lemma ex_history23_trace :
+  reg_trace reg_empty ex_history2 = [Ok tt; Ok tt; Ok tt; Ok tt; Ok tt]
+  /\ reg_trace reg_empty ex_history3 = [Ok tt; Err EMsg; Err EMsg; Ok tt].
+Proof. vm_compute. auto. Qed.
